@@ -69,14 +69,71 @@ def run(ctx, ck):
              and c.func.attr in ('vector_potential', 'scalar_potential')]
     ck.floor('potential helper calls in the image loop', len(calls), 7)
     bad_masks = []
+    body_ids = fl.cfg.loops[fl.cfg.node_of(l)][0]
+    # the restriction for the image: a value chosen by the sign of k whose negative-k alternative
+    # depends on the grounded-source mask
+    restr = set()
+    def neg_branch(t):
+        """which branch of a test on the image sign is taken for the image (k < 0)"""
+        if not (isinstance(t, ast.Compare) and len(t.ops) == 1 and isinstance(t.left, ast.Name)
+                and t.left.id == kv):
+            return None
+        try:
+            c = ast.literal_eval(t.comparators[0])
+        except Exception:
+            return None
+        op = t.ops[0]
+        val = {ast.Lt: -1 < c, ast.LtE: -1 <= c, ast.Gt: -1 > c, ast.GtE: -1 >= c,
+               ast.Eq: -1 == c, ast.NotEq: -1 != c}.get(type(op))
+        if val is None:
+            return None
+        return 'body' if val else 'orelse'
+    for s_ in walk_no_nested(l):
+        if isinstance(s_, ast.Assign) and isinstance(s_.targets[0], ast.Name) and isinstance(s_.value, ast.IfExp):
+            nb = neg_branch(s_.value.test)
+            if nb is None:
+                continue
+            neg = s_.value.body if nb == 'body' else s_.value.orelse
+            r = fl.roots(neg, fl.node_id_of(s_))
+            if ('attr', 'self.pulses.matrix_ground') in r:
+                restr.add(s_.targets[0].id)
+        elif isinstance(s_, ast.If):
+            nb = neg_branch(s_.test)
+            if nb is None:
+                continue
+            for blk_stmt in (s_.body if nb == 'body' else s_.orelse):
+                for a_ in [blk_stmt] + list(walk_no_nested(blk_stmt)):
+                    if isinstance(a_, ast.Assign) and isinstance(a_.targets[0], ast.Name):
+                        r = fl.roots(a_.value, fl.node_id_of(a_))
+                        if ('attr', 'self.pulses.matrix_ground') in r:
+                            restr.add(a_.targets[0].id)
+
+    def depends_on_names(expr, at, names, depth, seen):
+        for x in ast.walk(expr):
+            if isinstance(x, ast.Name) and x.id in names:
+                return True
+        if depth <= 0:
+            return False
+        for x in ast.walk(expr):
+            if isinstance(x, ast.Name) and x.id in fl.rd.names and (x.id, at) not in seen:
+                seen.add((x.id, at))
+                for d in fl.def_exprs(x.id, at):
+                    if d[0] in ('assign', 'weak') and d[2] in body_ids and d[1] is not None:
+                        if depends_on_names(d[1], d[2], names, depth - 1, seen):
+                            return True
+        return False
     for c in calls:
-        r = fl.roots(c.args[1], fl.node_id_of(c))
-        if ('attr', 'self.pulses.matrix_ground') not in r or ('call', 'self.image_iter') not in r:
+        if not restr or not depends_on_names(c.args[1], fl.node_id_of(c), restr, 4, set()):
             bad_masks.append(c)
         if norm(c.args[0]) != kv:
             bad_masks.append(c)
     ck.ob('R-EXH.image-term', FILL + '|image-mask', not bad_masks, f.loc(bad_masks[0] if bad_masks else l),
-          'every potential is evaluated for image k on a mask that depends on k and on the grounded-source '
-          'mask (%d calls)' % len(calls))
+          'every potential is evaluated for image k on a mask that, for the image (k < 0), is restricted by '
+          'the grounded-source mask (%s; %d calls)' % (sorted(restr), len(calls)) if not bad_masks else
+          'the mask of %s is not restricted by the grounded-source mask for k < 0' % norm(bad_masks[0])[:60])
+    from ._sym import check_ground_symmetry
+    ck.rule('R-SYM.ground-halves', 'statements selecting one half of the ground flags select the other too')
+    nsel, nst = check_ground_symmetry(ctx, ck)
+    ck.floor('statements selecting a half of the ground flags', nst, 3)
     ck.undecided += ['agreement to 1e-4 with adaptive quadrature of the published formulation',
                      'Gauss order thresholds; symmetry / diagonal copy optimisations']
